@@ -105,9 +105,10 @@ Definition base_integrate_xn_old (integ integ_x integ_xx : R -> R -> R) (quad_xn
   end.
 
 (* ---------------------------------------------------------------- TruncatedLevyMeasure.integrate* *)
+(* a > b raises (modelled as 0); an empty or one-point intersection returns 0 without calling the wrapped measure *)
 Definition truncated_integrate (integ : R -> R -> R) (l r a b : R) : R :=
   if Rltb b a then 0 else
-  let '(aa, bb) := truncated_interval l r a b in integ aa bb.
+  let '(aa, bb) := truncated_interval l r a b in if Reqb aa bb then 0 else integ aa bb.
 
 (* ---------------------------------------------------------------- CGMY (cgmy.py), hand model of the branch structure
    __integrate_h_to_inf(alpha, h, u) = int_h^inf exp(-u x) / x^(1+alpha) dx for alpha < 1, alpha <> 0:
